@@ -4,11 +4,17 @@ Local Open Scope N_scope.
 
 (* case: ( kind form payload fmt )   kind 0 size | 1 interval
    form 0: payload = Z value (integer scalar); form 1: float scalar (payload ignored);
-   form 2/3: payload = list of code points (string scalar; 3 = written as a plain YAML scalar) *)
+   form 2/3: payload = list of code points (string scalar; 3 = written as a plain YAML scalar);
+   form 4: payload = ( Z text ) an integer scalar in an alternative YAML spelling (+5, 0x10, 0o17):
+   the front-end hands the visitor the integer Z *)
 Definition dec_scalar (form : N) (p : vl) : option scalar :=
   match form with
   | 0 => match val_Z p with Some z => Some (SInt z) | None => None end
   | 1 => Some SFloat
+  | 4 => match p with
+         | VL [z; VS _] => match val_Z z with Some z => Some (SInt z) | None => None end
+         | _ => None
+         end
   | _ => match val_list val_N p with Some s => Some (SStr s) | None => None end
   end.
 
